@@ -1065,6 +1065,11 @@ func c02Policies(name string) map[string]c02Policy {
 		"allow-in":              {OD: "allow", Allow: []string{name, "other.example"}},
 		"allow-out":             {OD: "allow", Allow: []string{"other.example"}},
 		"allow-empty":           {OD: "allow"},
+		// a WILDCARD among the managed names: the implicit allowlist is a set of exact names, a
+		// hostname below a managed wildcard is not on it
+		"allow-wild-parent":    {OD: "allow", Allow: []string{"*.example", "other.example"}},
+		"allow-wild-unrelated": {OD: "allow", Allow: []string{"*.other.example"}},
+		"allow-wild-and-name":  {OD: "allow", Allow: []string{"*.example", name}},
 		// the template flow: Default.OnDemand, names managed through one Config, handshakes served by another
 		"tmpl-allow-in-before":  {OD: "allow-tmpl-before", Allow: []string{name, "other.example"}},
 		"tmpl-allow-out-before": {OD: "allow-tmpl-before", Allow: []string{"other.example"}},
@@ -1346,16 +1351,19 @@ func c02Run(tier string, seed int64, outdir string, replay string) error {
 	snis := []string{"foo.example", "FOO.Example", "  foo.example  ", "foo.example.", ".foo.example", "", " ", "*.example", "*", "f*o.example",
 		"bücher.example", "xn--bcher-kva.example", "BÜCHER.example", "192.0.2.7", "2001:db8::1", "[2001:db8::1]", "foo_bar.example", "foo bar.example",
 		"foo!.example", "a@b.example", "foo.example\x00", "foo\xff.example", "ſoo.example", "foo。example", " foo.example", "foo..example", "-foo.example",
-		strings.Repeat("a", 64) + ".example", "localhost", "foo.example:443", "(foo).example", "foo+bar.example", "foo=bar.example", "ⓕoo.example"}
+		strings.Repeat("a", 64) + ".example", "localhost", "a.foo.example", "b.a.foo.example", "*.foo.example", "foo.example:443", "(foo).example", "foo+bar.example", "foo=bar.example", "ⓕoo.example"}
 	for _, sni := range snis {
 		norm := strings.ToLower(strings.TrimSpace(sni))
-		for _, pn := range []string{"decision-all", "allow-all", "allow-empty", "none"} {
+		for _, pn := range []string{"decision-all", "allow-all", "allow-wildlist", "allow-empty", "none"} {
 			var p c02Policy
 			switch pn {
 			case "decision-all":
 				p = c02Policy{OD: "decision", Sched: [][]string{{norm, "xn--bcher-kva.example", "foo.example", "foo.example.", "*.example", "*", "192.0.2.7", "2001:db8::1", "localhost", "foo_bar.example", "-foo.example", strings.Repeat("a", 64) + ".example", "foo..example"}}}
 			case "allow-all":
 				p = c02Policy{OD: "allow", Allow: []string{norm, "xn--bcher-kva.example", "foo.example"}}
+			case "allow-wildlist":
+				// only wildcards are managed: their children and grandchildren are not, the literal is
+				p = c02Policy{OD: "allow", Allow: []string{"*.example", "*.foo.example", "*"}}
 			case "allow-empty":
 				p = c02Policy{OD: "allow"}
 			default:
